@@ -222,7 +222,9 @@ def make_problem(inst, solver=None, base_mixins=(), overrides=None):
         def seed(self, ensemble_member):
             s = AliasDict(self._ar)
             for k, ts in inst.get("seed", [{}] * E)[ensemble_member].items():
-                if isinstance(ts, dict):
+                if isinstance(ts, dict) and "vec" in ts:
+                    s[k] = np.array(ts["vec"], dtype=float)
+                elif isinstance(ts, dict):
                     s[k] = Timeseries(np.array(ts["t"], dtype=float), np.array(ts["v"], dtype=float))
                 else:
                     s[k] = ts
